@@ -8,8 +8,8 @@ Extraction Language OCaml.
 Extraction "model.ml"
   b2n n2b
   prog startup shutdown serve_pc init run life overlap_sched
-  obs_proc obs_names pid_content sock_listener lock_holder at_serve serving
+  obs_proc obs_names pid_content seed_content sock_listener lock_holder at_serve serving
   lock_open_creat lock_open_excl lock_open_trunc lock_create_mode
   lock_cmd_nonblocking lock_type_exclusive lock_whole_file lock_busy_exits
-  cprog cinit crun cstep cobs_proc cnames is_sock name_listener name_lock_holder refuses bind_name lock_name_of
+  cprog cinit crun cstep cobs_proc cnames is_sock name_listener name_lock_holder name_content refuses bind_name lock_name_of
   sun_path_cap sock_copy_size sock_len_bound lock_name_max.
